@@ -45,6 +45,9 @@ def run(rep, tier):
     c18.conversion_rules(Alias(rep, "R5.10"), F)
     from . import gt_tables
     gt_tables.run(rep, F, "R5.8", select={"Line::determinant", "Rect::width", "Rect::height"})
+    # every exact predicate this property rests on is a sign of the orientation kernel (rules shared with C03)
+    from . import c03 as _c03
+    _c03.kernel_rules(rep, F, "R5.11")
 
 
 def area_kernels(rep, F):
